@@ -127,12 +127,18 @@ def _observing_iterator_class():
     from singlecellmultiomics.molecule import MoleculeIterator
 
     class ObservingMoleculeIterator(MoleculeIterator):
-        """logs every molecule the iterator yields: its reads and its cut site (molecule.get_cut_site())"""
+        """logs every molecule the iterator yields: its reads and its cut site"""
 
         def __iter__(self):
             for m in MoleculeIterator.__iter__(self):
                 if _MOL_LOG is not None:
-                    site = m.get_cut_site()
+                    # the site the tagger's ownership filter looks at (tagging.py:120-125): the location of the first
+                    # fragment that has one (CHICMolecule.get_cut_site() raises for rejected fragments)
+                    site = None
+                    for fragment in m:
+                        site = fragment.get_site_location()
+                        if site is not None:
+                            break
                     _MOL_LOG.append({'reads': [(r.query_name, mate_of(r)) for r in m.iter_reads()],
                                      'site': None if site is None else (site[0], site[1])})
                 yield m
@@ -439,7 +445,7 @@ def main():
                 tid += 1
                 emit({'ev': 'run', 'tid': tid, 'mode': 'tasks', 'method': method, 'contigs': clens, 'serial': ser,
                       'jobs': run_tasks(tagging, bam, method, lib['contigs'], jobs), 'merged': [], 'raised': '',
-                      'case': dict(case, jobs=jobs)})
+                      'case': dict(case, jobs=[[task_rec(t) for t in j] for j in jobs])})
             if k < napi:
                 seg = rng.choice([lib['B'], lib['B'], lib['B'] // 2 + 7, 2 * lib['B']])
                 fsize = rng.choice([lib['maxext'] + 1, lib['F'], 2 * lib['F']])
@@ -506,7 +512,8 @@ def replay_case(case_path, outp):
         ev = {'ev': 'run', 'tid': 1, 'method': method, 'contigs': [l for _, l in lib['contigs']], 'serial': ser, 'merged': [],
               'raised': '', 'case': case}
         if 'jobs' in case:
-            jobs = [[tuple(t) for t in j] for j in case['jobs']]
+            un = lambda x: None if x == -1 else x
+            jobs = [[(t['c'], un(t['s']), un(t['e']), un(t['fs']), un(t['fe'])) for t in j] for j in case['jobs']]
             ev.update(mode='tasks', jobs=run_tasks(tagging, bam, method, lib['contigs'], jobs))
         elif 'api' in case:
             a = case['api']
